@@ -184,6 +184,8 @@ class variable(Proposition):
         return self.id < other.id
 
     def __eq__(self, other):
+        if issubclass(other.__class__, variable) and not self.bounds == other.bounds:
+            return False
         return self.id == getattr(other, "id", other)
 
     def assume(self, fixed: typing.Dict[str, typing.Union[int, typing.Tuple[int, int], Bounds]]) -> Proposition:
